@@ -2,6 +2,7 @@ import BV.Model.FFIStream
 import BV.Lemmas.FFI
 import BV.Lemmas.AdaptersStream
 import BV.Lemmas.StreamTotal
+import BV.Lemmas.StreamTinyFree
 /-
 C13 over the stream-machine model: the un-wrapped entry points are total, and the stream wrapper
 issues the very request of the Rust call and hands back its cursors.
@@ -298,6 +299,101 @@ theorem ffiRun_total {o : Oracle} {fuel : Nat} {mem : Mem} {calls : List FfiCall
         refine ih (seen0 := { seen0 with delivered := seen0.delivered ++ b1 }) f1.ok hok ?_ ?_ (fun x hx => hC x hx) h
         · simp only [Call.len, ffiHistLen] at hip hw ⊢; omega
         · simp only [List.length_append]; exact take_total' hT ht
+      · simp at h
+
+/-! ### `TakeOutput` cannot panic anywhere in a history (no hypothesis on the payload encoder) -/
+
+/-- what every state of a history satisfies: the run invariant, the `storage_` discipline and — once
+the instance has been used — the `tiny_buf_` discipline with the carry bound -/
+structure HistInv (s : St) : Prop where
+  run : RunOK s
+  store : StoreOK s
+  tiny : IsFresh s ∨ TinyL s
+
+theorem histInv_fresh {s : St} (h : IsFresh s) : HistInv s := ⟨runOK_fresh h, storeOK_fresh h, Or.inl h⟩
+
+/-- under the history invariant the pending bytes lie inside the buffer `next_out_` points into -/
+theorem outOk_of_histInv {s : St} (h : HistInv s) : OutOk s := by
+  rcases h.tiny with hf | hT
+  · obtain ⟨_, _, _, hno, _⟩ := isFresh_fields hf
+    unfold OutOk; rw [hno]; trivial
+  · have := pendingInBuffer_of h.store hT.1
+    unfold PendingInBuffer at this
+    unfold OutOk
+    exact this
+
+theorem takeOutput_fresh {s : St} (hf : IsFresh s) (size : Nat) : BV.Stream.takeOutput s size = .ok (s, []) := by
+  obtain ⟨_, hp, _, hno, _⟩ := isFresh_fields hf
+  unfold BV.Stream.takeOutput takeSliceOk takeCount
+  rw [hno, hp]
+  simp
+
+/-- **the history invariant is kept by every call of a history**; so after any history of C ABI calls
+on a fresh instance in which no Rust call unwound, `OutOk` holds: `BrotliEncoderTakeOutput` — which is
+NOT behind `catch_panic` — cannot panic at any point of any such history -/
+theorem ffiRun_histInv {o : Oracle} {fuel : Nat} {mem : Mem} {calls : List FfiCall} {s0 s : St} {seen0 seen : FfiSeen}
+    (hJ : HistInv s0) (hok : FfiHistOK mem calls) (hw : s0.inputPos + ffiHistLen calls < two64)
+    (h : ffiRun o fuel mem calls s0 seen0 = some (s, seen)) : HistInv s := by
+  induction calls generalizing s0 seen0 with
+  | nil =>
+    simp only [ffiRun, Option.some.injEq, Prod.mk.injEq] at h
+    obtain ⟨rfl, _⟩ := h
+    exact hJ
+  | cons c cs ih =>
+    cases c with
+    | setParam id v =>
+      simp only [ffiRun] at h
+      rw [ffiSetParameter_fst] at h
+      by_cases hi : s0.isInitialized = true
+      · have : (setParameter s0 id v).1 = s0 := by simp [setParameter, hi]
+        rw [this] at h
+        exact ih hJ hok (by simpa [ffiHistLen] using hw) h
+      · have hf : IsFresh s0 := by
+          rcases hJ.run.inv with hf | hI
+          · exact hf
+          · exact absurd hI.init hi
+        have hf' := setParameter_fresh hf id v
+        refine ih (histInv_fresh hf') hok ?_ h
+        rw [(isFresh_fields hf').2.2.1]
+        simp only [ffiHistLen] at hw
+        omega
+    | hasMore => simp only [ffiRun] at h; exact ih hJ hok (by simpa [ffiHistLen] using hw) h
+    | isFinished => simp only [ffiRun] at h; exact ih hJ hok (by simpa [ffiHistLen] using hw) h
+    | stream op c =>
+      simp only [ffiRun] at h
+      obtain ⟨hop, hlen, hok'⟩ := hok
+      simp only [ffiHistLen] at hw
+      split at h
+      · rename_i x hcs
+        obtain ⟨s1, io1, r1⟩ := x
+        obtain ⟨e1, _⟩ := ffiCompressStream_ok o fuel s0 mem op c hcs
+        have hw0 : s0.inputPos + (inputSlice mem c.nextIn c.availIn).length < two64 := by rw [hlen]; omega
+        have hrc : runCall o fuel s0 {} (.stream op (inputSlice mem c.nextIn c.availIn) c.availOut)
+            = .ok (s1, Trace.afterStream o {} (ensureInitialized s0) op (inputSlice mem c.nextIn c.availIn) io1 r1) := by
+          simp only [runCall, hcs]
+        obtain ⟨hip, _, f1⟩ := runCall_facts (c := .stream op (inputSlice mem c.nextIn c.availIn) c.availOut) hJ.run
+          (show op ≤ 3 ∧ _ from ⟨hop, hw0⟩) hrc
+        rw [e1] at h
+        refine ih ⟨f1.ok, storeOK_call hop hJ.run.inv hw0 hJ.store hcs, Or.inr (tinyL_call_run hop hJ.run.inv hw0 hJ.tiny hcs)⟩ hok' ?_ h
+        simp only [Call.len] at hip; rw [hlen] at hip; omega
+      · simp at h
+    | take size =>
+      simp only [ffiRun] at h
+      split at h
+      · rename_i s1 n1 b1 hts
+        have ht := ffiTakeOutput_ok hts
+        have hrc : runCall o fuel s0 {} (.take size) = .ok (s1, { delivered := b1 }) := by
+          simp only [runCall, ht]; rfl
+        obtain ⟨hip, _, f1⟩ := runCall_facts (c := .take size) hJ.run (by trivial) hrc
+        have htiny : IsFresh s1 ∨ TinyL s1 := by
+          rcases hJ.tiny with hf | hT
+          · rw [takeOutput_fresh hf size] at ht
+            simp only [Out.ok.injEq, Prod.mk.injEq] at ht
+            obtain ⟨rfl, _⟩ := ht
+            exact Or.inl hf
+          · exact Or.inr (tinyL_take hT ht)
+        refine ih ⟨f1.ok, storeOK_take hJ.store ht, htiny⟩ hok ?_ h
+        simp only [Call.len, ffiHistLen] at hip hw ⊢; omega
       · simp at h
 
 end BV.FFI
